@@ -20,6 +20,10 @@ CHECKS = {
          'explicit-state BFS over block/rollback/re-execute/reopen histories on the real executor+ledger with full index re-derivation',
          'All histories up to depth 4 (thorough 6) of block kinds (empty, transfers, interchain, mixed with failing tx, duplicate-looking txs), rollback to head..head-3, re-delivery of the head block, a different block for an existing height, reopen; after every state all heights 1..head, hash links, Merkle roots over stored txs/receipts, every lookup index and the chain meta are re-derived; nothing of removed blocks may resolve.',
          'memkv for goleveldb, real blockfile on tmpfs; identical transaction objects in two blocks are outside consensus guarantees and not explored', '5 C09'),
+ 'C14': ('chainmc', 'model_checking',
+         'explicit-state BFS over transfer/fee block histories on the real executor against an arithmetic reference model',
+         'All block histories up to depth 2 (thorough 3) over 23 block kinds: transfers with amount in {0,1,balance,balance+1,balance-fee,10^40,non-numeric,negative} between rich/poor/self/admin accounts whose balances sit at fee-1, fee, fee+1, fee+9, succeeding and failing contract calls, multi-tx blocks; per block the sum and sign of all persisted balances, receipt verdicts and every account balance are compared with the reference.',
+         'memkv for goleveldb; gas price 50000 and 4 admins; admin-grant path not in the alphabet', '5 C14'),
  'C10': ('enum', 'model_checking',
          'bounded-exhaustive enumeration of write sets x permutations x read patterns x residency on the real StateLedger',
          'Every set of <=3 (thorough <=4) writes over 8 targets is executed in every order, read pattern and residency (cache, reopened, purged) on the real SimpleLedger: equal write sets must give equal roots, change sets differing in one item and equal changes on different previous roots must give different roots; tx/receipt Merkle roots likewise for every permutation and single-field perturbation.',
@@ -63,7 +67,7 @@ def main():
         'engines': [
             {'name': 'ledgermc', 'path': 'harness/checks/sl.go', 'serves_properties': ['C12', 'C13'], 'kind_free_text': 'explicit-state BFS (state = history, replay on fresh instance) over real StateLedger'},
             {'name': 'icmc', 'path': 'harness/checks/ic.go', 'serves_properties': ['C02', 'C04', 'C06'], 'kind_free_text': 'explicit-state BFS over block histories of the real executor stepped with a reference model'},
-            {'name': 'chainmc', 'path': 'harness/checks/c09.go', 'serves_properties': ['C09'], 'kind_free_text': 'explicit-state BFS over chain histories'},
+            {'name': 'chainmc', 'path': 'harness/checks/c09.go', 'serves_properties': ['C09', 'C14'], 'kind_free_text': 'explicit-state BFS over chain histories'},
             {'name': 'enum', 'path': 'harness/checks/c10.go', 'serves_properties': ['C10'], 'kind_free_text': 'bounded-exhaustive enumeration'},
         ],
         'checks': checks,
